@@ -163,6 +163,44 @@ pub fn check<I: Inputs>(vt: &'static Vt<I>, ctx: &Ctx) -> DeclReport {
     let facts = mechanism_facts(m);
     let sig = |w: &str, extra: &str| format!("C09|{}|{w}|{facts}{extra}", I::NAME);
     let eval = |b: &Bytes| -> Outcome { eval_bytes(vt, b) };
+    // termination probe: a handful of inputs (empty, saturating, whitespace-only, long) run on a helper thread
+    // with a generous time-out; a generator that does not return is a violation of "terminates" and the
+    // declaration is skipped (the stuck thread is leaked) instead of hanging the whole check
+    if ctx.case.is_none() {
+        let mut probes: Vec<Vec<u8>> = vec![vec![], vec![0xFF; 4], vec![0xFF; 64], vec![0x20; 64], vec![0; 64], vec![0x7F; 33]];
+        probes.push([0x20u8, 0, 0, 0].repeat(24));
+        probes.push([0x85u8, 0, 0, 0].repeat(24));
+        probes.push((0..=255u8).collect());
+        for p in probes {
+            let (tx, rx) = std::sync::mpsc::channel();
+            let pc = p.clone();
+            std::thread::spawn(move || {
+                let r = no_panic(|| arb(&pc).is_ok());
+                let _ = tx.send(r.is_ok());
+            });
+            rep.evaluations += 1;
+            if rx.recv_timeout(std::time::Duration::from_secs(10)).is_err() {
+                let mut w = Default::default();
+                rep.viol(
+                    Viol {
+                        prop: "C09".into(),
+                        decl_id: vt.id.into(),
+                        type_name: vt.type_name.into(),
+                        decl: vt.decl.into(),
+                        signature: format!("C09|{}|does-not-terminate|{}", I::NAME, mechanism_facts(m)),
+                        case: Bytes(p.clone()).to_json(),
+                        expected: "arbitrary() returns".into(),
+                        actual: "no result after 10 s".into(),
+                        shrunk: "none".into(),
+                    },
+                    0,
+                    &mut w,
+                );
+                rep.notes.push("generator did not terminate on a probe input; declaration skipped".into());
+                return rep;
+            }
+        }
+    }
     rep.exhaustive = true; // all byte strings of length <= 2
     let strat = prop_oneof![proptest::collection::vec(any::<u8>(), 0..16), proptest::collection::vec(any::<u8>(), 0..96), proptest::collection::vec(prop_oneof![Just(0xFFu8), Just(0u8), Just(0x20u8), any::<u8>()], 0..40)].prop_map(Bytes).boxed();
     drive(ctx, &info, &mut rep, byte_inputs(ctx.tier), Some(strat), ctx.n_random(3000, 300_000), &eval);
